@@ -422,8 +422,21 @@ def run_property(pid, tier, seed):
     discharged = obligations - len({n for n, _ in bad_axioms})
     broken = None
     if not ok_proofs:
-        m = re.search(r"error: (\S+\.lean:\d+:\d+): ", out_proofs)
-        broken = "theorem file CoseProofs/Props/%s.lean no longer checks (%s)" % (pid, m.group(1) if m else "build failed")
+        m = re.search(r"error: (\S+\.lean):(\d+):\d+: ", out_proofs)
+        what = "build failed"
+        if m:
+            what = "%s:%s" % (m.group(1), m.group(2))
+            try:
+                src = open(os.path.join(LEAN, m.group(1))).read().splitlines()
+                # the enclosing theorem: nearest `theorem NAME` at or above the reported line
+                for ln in range(int(m.group(2)) - 1, -1, -1):
+                    tm = re.match(r"\s*theorem\s+(\S+)", src[ln])
+                    if tm:
+                        what = "theorem %s in %s (line %s)" % (tm.group(1), m.group(1), m.group(2))
+                        break
+            except Exception:
+                pass
+        broken = "proof obligation of %s no longer checks: %s" % (pid, what)
         log(out_proofs[-3000:])
     elif obligations == 0:
         broken = "no theorem found in namespace " + pid
